@@ -177,13 +177,44 @@ def _stmt_node(ids):
 
 
 def _node_ids(node):
-    return [int(x) for x in node.children[0].value.split(',')]
+    v = node.children[0].value
+    if v.startswith('c'):
+        return []             # continuation node of a statement that prints as several nodes
+    return [int(x) for x in v.split(',')]
+
+
+# VH_MULTI=1: the last pool statement prints as TWO statement nodes (like a piecewise without else, which becomes one
+# `IF (..) X = v` line per branch); records produced by an earlier update then hold statements spanning several nodes
+MULTI = _env_int('VH_MULTI', 0)
+
+
+def _continuations_ok(kids):
+    """every node of the multi-node statement is directly followed by its continuation node, and no continuation node
+    stands alone"""
+    if not MULTI:
+        return True
+    st = [c.children[0].value for c in kids if c.rule == 'statement']
+    sid = str(NPOOL - 1)
+    i = 0
+    while i < len(st):
+        if st[i] == sid:
+            if i + 1 >= len(st) or st[i + 1] != 'c' + sid:
+                return False
+            i += 2
+        elif st[i].startswith('c'):
+            return False
+        else:
+            i += 1
+    return True
 
 
 def _fresh_nodes(self, defined_symbols, s, rvs, trans):
     """stand-in for CodeRecord._statement_to_nodes (which prints the statement and parses it with lark): one fresh
     opaque 'statement' node carrying the identity of the statement"""
-    return [_stmt_node([POOL.index(s)])]
+    sid = POOL.index(s)
+    if MULTI and sid == NPOOL - 1:
+        return [_stmt_node([sid]), AttrTree('statement', (AttrToken('S', 'c%d' % sid),))]
+    return [_stmt_node([sid])]
 
 
 CRm.CodeRecord._statement_to_nodes = _fresh_nodes
@@ -207,8 +238,14 @@ def build_record(old_ids, gaps, merges):
             b = AttrToken('NEWLINE' if j == 0 else 'WS', 'b%d.%d' % (k, j))
             children.append(b)
             blanks.append(b)
-        index.append((len(children), len(children) + 1, si, si + len(g)))
-        children.append(_stmt_node(g))
+        if MULTI and g == [NPOOL - 1]:
+            # a statement that occupies two nodes in the old record as well
+            index.append((len(children), len(children) + 2, si, si + 1))
+            children.append(_stmt_node(g))
+            children.append(AttrTree('statement', (AttrToken('S', 'c%d' % g[0]),)))
+        else:
+            index.append((len(children), len(children) + 1, si, si + len(g)))
+            children.append(_stmt_node(g))
         si += len(g)
     for j in range(gaps[len(groups)]):
         b = AttrToken('NEWLINE' if j == 0 else 'WS', 'b%d.%d' % (len(groups), j))
@@ -222,6 +259,8 @@ def build_record(old_ids, gaps, merges):
 def check_updated(rec2, new_ids, blanks):
     kids = rec2.root.children
     if [c for c in kids if c.rule != 'statement'] != blanks:
+        return False
+    if not _continuations_ok(kids):
         return False
     ids = []
     for c in kids:
@@ -307,6 +346,7 @@ def update_twice(no: int, o0: int, o1: int, nn: int, n0: int, n1: int, n2: int, 
     Two updates in a row (the second one runs on the index produced by the first).
     pre: _seq_pre(no, o0, o1, 0, nn, n0, n1, n2, g0, g1, g2, 0) and 0 <= kk <= SEQ_MAX and 0 <= k0 < NPOOL
     pre: 0 <= k1 < NPOOL and no <= 2 and (FIN_N < 0 or kk == FIN_N)
+    pre: not (MULTI and m1)
     post: _ == True
     """
     old_ids = [_c(v) for v in [o0, o1][:_c(no)]]
@@ -350,6 +390,7 @@ def update_twice__twin(no: int, o0: int, o1: int, nn: int, n0: int, n1: int, n2:
     """
     pre: _seq_pre(no, o0, o1, 0, nn, n0, n1, n2, g0, g1, g2, 0) and 0 <= kk <= SEQ_MAX and 0 <= k0 < NPOOL
     pre: 0 <= k1 < NPOOL and no == 2 and nn == 2 and kk == 2 and k0 != n0 and (FIN_N < 0 or kk == FIN_N)
+    pre: not (MULTI and m1)
     post: _ == True
     """
     return not update_twice(no, o0, o1, nn, n0, n1, n2, kk, k0, k1, g0, g1, g2, m1)
